@@ -1286,6 +1286,52 @@ Proof.
   cbn [cache_run fst]. f_equal. apply IH.
 Qed.
 
+(* ---------- error path and instance data ---------- *)
+(* when the open solver (or the residual it evaluates: InfeasibleRegion is a RuntimeError) raises, the wrapper's result is
+   the bounded solve over [lo, hi] started from the residual values at the two ends - the exception does not escape *)
+Lemma fallback_taken_lemma S f buf x0 x1 lo hi e b a c :
+  secant S f buf x0 x1 = SErr e b -> is_runtime e = true ->
+  f b lo = Ok a -> f (snd a) hi = Ok c ->
+  secant_or_iq S f buf x0 x1 lo hi = sres_res (iq S f (snd c) lo hi (fst a) (fst c) (Some x0)).
+Proof.
+  intros H R A C. unfold secant_or_iq. rewrite H, R. cbn [negb]. rewrite A. cbn [bind]. rewrite C. reflexivity.
+Qed.
+Lemma other_errors_escape_lemma S f buf x0 x1 lo hi e b :
+  secant S f buf x0 x1 = SErr e b -> is_runtime e = false -> secant_or_iq S f buf x0 x1 lo hi = Err e.
+Proof. intros H R. unfold secant_or_iq. rewrite H, R. reflexivity. Qed.
+
+(* the VLE domain an instance carries is a function of the data of ITS chemical objects (nothing else: no name, no
+   earlier instance) *)
+Lemma instance_domain_lemma cs g pid ph pc k : new_pkg cs g pid ph pc = Ok k ->
+  chems k = cs /\ vle_domain cs = Ok (pTmin k, pTmax k) /\
+  (forall c, In c cs -> pPmin k <= c_psat c (pTmin k) /\ c_psat c (pTmax k) <= pPmax k).
+Proof.
+  unfold new_pkg. destruct (vle_domain cs) as [[lo hi]|] eqn:D; cbn [bind fst snd]; [|discriminate].
+  destruct cs as [|c0 t]; [discriminate|]. cbn [map]. intros H. inversion H; subst; clear H. cbn [chems pTmin pTmax pPmin pPmax].
+  split; [reflexivity|]. split; [reflexivity|].
+  assert (forall (l : list Q) a x, (x == a \/ In x l) -> fold_left Qmin l a <= x) as Fmin.
+  { induction l as [|y l IH]; intros a x [E|I]; cbn [fold_left].
+    - rewrite E. apply Qle_refl.
+    - destruct I.
+    - eapply Qle_trans; [apply IH; left; reflexivity|]. rewrite E. apply Q.le_min_l.
+    - destruct I as [->|I].
+      + eapply Qle_trans; [apply IH; left; reflexivity|]. apply Q.le_min_r.
+      + apply IH. right. exact I. }
+  assert (forall (l : list Q) a x, (x == a \/ In x l) -> x <= fold_left Qmax l a) as Fmax.
+  { induction l as [|y l IH]; intros a x [E|I]; cbn [fold_left].
+    - rewrite E. apply Qle_refl.
+    - destruct I.
+    - eapply Qle_trans; [|apply IH; left; reflexivity]. rewrite E. apply Q.le_max_l.
+    - destruct I as [->|I].
+      + eapply Qle_trans; [|apply IH; left; reflexivity]. apply Q.le_max_r.
+      + apply IH. right. exact I. }
+  intros c [->|I]; split.
+  - apply Fmin. left. reflexivity.
+  - apply Fmax. left. reflexivity.
+  - apply Fmin. right. apply (in_map (fun c1 => c_psat c1 lo)). exact I.
+  - apply Fmax. right. apply (in_map (fun c1 => c_psat c1 hi)). exact I.
+Qed.
+
 (* ---------- the dew-equation clause without the solver contracts ---------- *)
 (* the clause of the property as the text has it: whatever the root finders do, a computed dew temperature satisfies the
    dew equation on the normalised composition and the returned liquid fractions are the ones of that point *)
